@@ -217,13 +217,35 @@ func (c refClock) divisible() bool {
 	return l%c.Split == 0
 }
 
+// windows: the windows the reference knows exactly (not those of unevenly split specs, see looseSpans).
 func (s refSched) windows() []refWin {
 	if len(s.Clocks) == 0 {
 		return []refWin{{0, 0, false}} // a bare weekday means 00:00 of that day
 	}
 	var res []refWin
 	for _, c := range s.Clocks {
-		res = append(res, c.windows()...)
+		if c.divisible() {
+			res = append(res, c.windows()...)
+		}
+	}
+	return res
+}
+
+// looseSpan: a clock spec whose /N does not divide its length into whole minutes. The documentation does not
+// say where exactly the sub-windows begin and end, so the reference only knows the configured span: every
+// sub-window lies inside [S, E] of a matching day, there are at most N of them, and the first begins at S.
+type looseSpan struct {
+	S, E, N int // minutes of the day (E <= 1440: such specs are only used when they do not cross midnight)
+	Spread  bool
+	Name    string
+}
+
+func (s refSched) looseSpans() []looseSpan {
+	var res []looseSpan
+	for _, c := range s.Clocks {
+		if !c.divisible() {
+			res = append(res, looseSpan{S: c.S, E: c.E, N: c.Split, Spread: c.Spread, Name: fmt.Sprintf("%02d:%02d-%02d:%02d/%d", c.S/60, c.S%60, c.E/60, c.E%60, c.Split)})
+		}
 	}
 	return res
 }
@@ -233,6 +255,11 @@ func (s refSched) windows() []refWin {
 func (s refSched) dayContained() bool {
 	for _, w := range s.windows() {
 		if w.S >= 1440 || w.E > 1440 {
+			return false
+		}
+	}
+	for _, l := range s.looseSpans() {
+		if l.E > 1440 || l.E <= l.S {
 			return false
 		}
 	}
@@ -310,12 +337,53 @@ func (ws refWeekSpan) match(d day) bool {
 
 // model is a reference schedule with memoised day matching.
 type model struct {
-	sc   refSched
-	wins []refWin
-	memo map[day]bool
+	sc    refSched
+	wins  []refWin
+	loose []looseSpan
+	memo  map[day]bool
 }
 
-func newModel(sc refSched) *model { return &model{sc: sc, wins: sc.windows(), memo: map[day]bool{}} }
+func newModel(sc refSched) *model {
+	return &model{sc: sc, wins: sc.windows(), loose: sc.looseSpans(), memo: map[day]bool{}}
+}
+
+func minutes(d day, m int) time.Time { return d.time().Add(time.Duration(m) * time.Minute) }
+
+// inLooseSpan: [start, end] lies inside the configured span of an unevenly split spec on a matching day.
+func (m *model) inLooseSpan(start, end time.Time, spread bool) bool {
+	d := dayOf(start)
+	if !m.dayMatch(d) || end.Before(start) {
+		return false
+	}
+	for _, l := range m.loose {
+		if !start.Before(minutes(d, l.S)) && !end.After(minutes(d, l.E)) && (spread == l.Spread || end.Equal(start)) {
+			return true
+		}
+	}
+	return false
+}
+
+// looseUpper: the first sub-window of an unevenly split spec begins at the span start, so a span start that is
+// after 'last' and not before 'now' is an admissible window start: the chosen window cannot start later.
+func (m *model) looseUpper(last, now time.Time) (time.Time, bool) {
+	var best time.Time
+	found := false
+	for _, l := range m.loose {
+		for d := dayOf(now) - 1; d < dayOf(now)+800; d++ {
+			if !m.dayMatch(d) {
+				continue
+			}
+			t := minutes(d, l.S)
+			if t.After(last) && !t.Before(now) {
+				if !found || t.Before(best) {
+					best, found = t, true
+				}
+				break
+			}
+		}
+	}
+	return best, found
+}
 
 func (m *model) dayMatch(d day) bool {
 	if len(m.sc.Weeks) == 0 {
@@ -364,6 +432,9 @@ func admissible(w absWin, last, now time.Time) bool {
 
 // next: all admissible windows with the smallest start (several when two specs start together).
 func (m *model) next(last, now time.Time) []absWin {
+	if len(m.wins) == 0 {
+		return nil // only unevenly split specs
+	}
 	d0 := dayOf(now) - 3 // a window is at most 24h long and starts less than 48h after its day began
 	var best []absWin
 	found := day(0)
@@ -543,8 +614,11 @@ func buildExpr(expr string) (*exprModel, string) {
 	em := &exprModel{expr: expr, scheds: scheds, dayContained: true}
 	for _, r := range ref {
 		for _, c := range r.Clocks {
-			if !c.divisible() || c.S >= 1440 {
-				return nil, "menu expression outside the semantic space (uneven split or start at 24:00)"
+			if c.S >= 1440 {
+				return nil, "menu expression outside the semantic space (start at 24:00)"
+			}
+			if !c.divisible() && (c.E <= c.S || c.E > 1440) {
+				return nil, "menu expression outside the semantic space (uneven split of a span crossing midnight)"
 			}
 		}
 		em.models = append(em.models, newModel(r))
@@ -553,6 +627,58 @@ func buildExpr(expr string) (*exprModel, string) {
 		}
 	}
 	return em, ""
+}
+
+// checkFlatten: what the statement bounds whatever the exact sub-window boundaries are: a spec split /N (not
+// crossing midnight) is laid out as at most N sub-spans, the first beginning at the span start, all of them
+// inside the configured span.
+func (em *exprModel) checkFlatten() (string, string) {
+	for i, m := range em.models {
+		for k, c := range m.sc.Clocks {
+			if c.Split < 2 || c.E <= c.S || c.E > 1440 {
+				continue
+			}
+			cs := em.scheds[i].ClockSpans[k]
+			subs := cs.ClockSpans()
+			bad := ""
+			if len(subs) == 0 || len(subs) > c.Split {
+				bad = fmt.Sprintf("%d sub-spans for /%d", len(subs), c.Split)
+			}
+			for j, sub := range subs {
+				s0, e0 := sub.Start.Hour*60+sub.Start.Minute, sub.End.Hour*60+sub.End.Minute
+				if e0 == 0 && s0 > 0 {
+					e0 = 1440
+				}
+				switch {
+				case j == 0 && s0 != c.S:
+					bad = fmt.Sprintf("the first sub-span begins at %s, not at the span start", sub.Start)
+				case s0 < c.S || e0 > c.E || e0 < s0:
+					bad = fmt.Sprintf("sub-span %s is not inside the configured span", sub)
+				}
+			}
+			if bad != "" {
+				return "flatten:" + cs.String(), fmt.Sprintf("clock spec %q: %s", cs.String(), bad)
+			}
+		}
+	}
+	return "", ""
+}
+
+// spanEdgeInstants: for every unevenly split spec, instants just before/at/after the edges of its span on nine
+// consecutive days (all weekdays, a month end).
+func (em *exprModel) spanEdgeInstants() []time.Time {
+	var res []time.Time
+	d0 := dayOf(time.Date(2018, 2, 24, 0, 0, 0, 0, time.UTC))
+	for _, m := range em.models {
+		for _, l := range m.loose {
+			for d := d0; d < d0+9; d++ {
+				for _, off := range []int{l.S - 1, l.S, l.E - 1, l.E, l.E + 1} {
+					res = append(res, minutes(d, off))
+				}
+			}
+		}
+	}
+	return res
 }
 
 type outcome struct {
@@ -569,6 +695,30 @@ func (em *exprModel) checkNext(last, now time.Time, max time.Duration) outcome {
 	for i, m := range em.models {
 		refs := m.next(last, now)
 		w := em.scheds[i].Next(last)
+		if len(m.loose) > 0 {
+			// --- unevenly split specs: the window must lie inside a configured span (or be an exactly known
+			// window), be admissible, and not start later than the earliest start known to be admissible ---
+			aw := absWin{w.Start, w.End, w.Spread}
+			upper, haveUpper := m.looseUpper(last, now)
+			if refs != nil && (!haveUpper || refs[0].Start.Before(upper)) {
+				upper, haveUpper = refs[0].Start, true
+			}
+			names := make([]string, len(m.loose))
+			for k, l := range m.loose {
+				names[k] = l.Name
+			}
+			key := "uneven-split:" + strings.Join(names, ",")
+			descr := fmt.Sprintf("timer %q last=%s now=%s: Schedule.Next chose %s", em.scheds[i].String(), fmtT(last), fmtT(now), winStr(w.Start, w.End, w.Spread))
+			switch {
+			case !windowOK(w, refs) && !m.inLooseSpan(w.Start, w.End, w.Spread):
+				return outcome{key: key, msg: descr + ", which is not inside the configured span of any clock spec of the timer on a matching day"}
+			case !admissible(aw, last, now):
+				return outcome{key: key, msg: descr + ", which is over at 'now' or contains the last refresh"}
+			case haveUpper && w.Start.After(upper):
+				return outcome{key: key, msg: descr + fmt.Sprintf(", but a window of the timer starting at %s is still open at 'now' and is not the window of the last refresh", fmtT(upper))}
+			}
+			refs = []absWin{aw} // the laws of timeutil.Next are checked relative to this validated window
+		} else
 		// --- Schedule.Next: the window search ---
 		if !windowOK(w, refs) {
 			why := "it is not the earliest window of the timer that is still open at 'now' and is not the window of the last refresh"
@@ -710,11 +860,35 @@ func inAny(ws []absWin, now time.Time, d time.Duration) bool {
 
 // checkIncludes compares Includes with the reference on one instant (only for day-contained expressions).
 func (em *exprModel) checkIncludes(t time.Time) (string, string) {
-	want := false
+	want, inSpan, atSpanStart, loose := false, false, false, false
 	for _, m := range em.models {
 		if m.includes(t) {
 			want = true
 		}
+		if len(m.loose) > 0 {
+			loose = true
+			d := dayOf(t)
+			if m.dayMatch(d) {
+				for _, l := range m.loose {
+					if !t.Before(minutes(d, l.S)) && t.Before(minutes(d, l.E)) {
+						inSpan = true
+					}
+					if !t.Before(minutes(d, l.S)) && t.Before(minutes(d, l.S+1)) {
+						atSpanStart = true
+					}
+				}
+			}
+		}
+	}
+	if loose {
+		got := timeutil.Includes(em.scheds, t)
+		switch {
+		case got && !want && !inSpan:
+			return "uneven-split-includes:" + em.expr, fmt.Sprintf("timer %q: Includes(%s) = true, but the instant is outside every configured span of the timer", em.expr, fmtT(t))
+		case !got && (want || atSpanStart):
+			return "uneven-split-includes:" + em.expr, fmt.Sprintf("timer %q: Includes(%s) = false, but a window of the timer begins there", em.expr, fmtT(t))
+		}
+		return "", ""
 	}
 	if got := timeutil.Includes(em.scheds, t); got != want {
 		return "includes:" + em.expr, fmt.Sprintf("timer %q: Includes(%s) = %v, the documented meaning of the timer says %v", em.expr, fmtT(t), got, want)
@@ -817,6 +991,13 @@ func buildSpace(thorough bool) space {
 		pweeks = append(pweeks, "tue2", "fri-mon")
 		pclocks = append(pclocks, "00:00", "0:00-24:00/4")
 	}
+	// splits that do not divide their span into whole minutes: the reference only bounds their sub-windows by the
+	// configured span (single specs, combined with every week list; plus a few mixtures with exact specs below)
+	uneven := []string{"8:00-9:00/7", "9:00~11:00/7"}
+	if thorough {
+		uneven = append(uneven, "6:00-7:00/9", "0:00-1:00/24", "10:00-10:10/3")
+	}
+	clocks = append(clocks, uneven...)
 	var sp space
 	// pairs of week specs / clock specs only over the first five (quick) / eight (thorough) of each menu
 	pairN := 5
@@ -831,6 +1012,12 @@ func buildSpace(thorough bool) space {
 			}
 			sp.exprs = append(sp.exprs, join2(w, c, ","))
 		}
+	}
+	for _, u := range uneven {
+		sp.exprs = append(sp.exprs, u+",9:00-11:00", "mon,"+u+",23:30", u+",,fri5,09:00")
+	}
+	if !thorough {
+		sp.exprs = append(sp.exprs, "mon,23:00-01:00/2") // in the thorough clock menu; here so that both known-finding keys are reached
 	}
 	var small []string
 	for _, w := range lists(pweeks, 0) {
@@ -1059,8 +1246,23 @@ func TestC16(t *testing.T) {
 		}
 		r.Add("expressions", 1)
 		failed := false
+		if key, msg := em.checkFlatten(); key != "" {
+			r.Violation(key, msg, c16Case{Kind: "next", Expr: expr, Last: sp.grid[0].Format(time.RFC3339), Now: sp.grid[0].Format(time.RFC3339), MaxH: 24})
+			// (no 'continue': the observable laws on Next and Includes below are evaluated as well)
+		}
+		grid, incGrid := sp.grid, sp.incGrid
+		if extra := em.spanEdgeInstants(); len(extra) > 0 {
+			// expressions with unevenly split specs: also instants around the edges of those spans
+			grid = append(append([]time.Time{}, grid...), extra...)
+			for _, t := range extra {
+				for m := 0; m <= 10; m++ {
+					incGrid = append(incGrid, t.Add(time.Duration(m)*time.Minute), t.Add(time.Duration(m)*time.Minute+30*time.Second))
+				}
+			}
+			r.Add("expressions_with_uneven_split", 1)
+		}
 	cases:
-		for gi, last := range sp.grid {
+		for gi, last := range grid {
 			for _, max := range sp.maxes {
 				for _, off := range sp.offsets {
 					if off < 0 {
@@ -1090,7 +1292,7 @@ func TestC16(t *testing.T) {
 		if failed || !em.dayContained {
 			continue
 		}
-		for _, t := range sp.incGrid {
+		for _, t := range incGrid {
 			nInc++
 			key, msg := em.checkIncludes(t)
 			if key != "" {
